@@ -379,6 +379,24 @@ def toplevel_call_families():
     return out
 
 
+def initialisation_order_cases():
+    """top-level statements and global definitions of an imported file run in the order in which the file has them, before the importer's
+    own (round 11: C09-D hoisted all imported definitions above all imported top-level code)"""
+    out = []
+    acc = ('var Total int = 0\nfunc Add(n int) {\n\tTotal = Total + n\n}\nAdd(5)\nAdd(7)\nvar Snapshot int = Total\nAdd(1)\nvar Later int = Total * 2\n'
+           'func Show() string {\n\treturn itoa(Snapshot) + " " + itoa(Later) + " " + itoa(Total)\n}\n')
+    out.append(("init-order-one-file", {"main.tsh": 'import a "acc.tsh"\nprint(a.Show())\n', "acc.tsh": acc}, "12 26 13\n"))
+    counter = 'var N int = 0\nfunc Next() int {\n\tN = N + 1\n\treturn N\n}\nprint("counter ready", Next())\n'
+    report = ('import c "counter.tsh"\nvar First int = c.Next()\nprint("first", First)\nvar Second int = c.Next() + First\n'
+              'func Show() string {\n\treturn itoa(First) + " " + itoa(Second)\n}\n')
+    out.append(("init-order-chain", {"main.tsh": 'import r "report.tsh"\nprint(r.Show())\n', "report.tsh": report, "counter.tsh": counter},
+                "counter ready 1\nfirst 2\n2 5\n"))
+    two = ('var Log string = ""\nfunc Note(s string) {\n\tLog = Log + s\n}\nNote("a")\nvar Mid string = Log + "|"\nNote("b")\n'
+           'func Show() string {\n\treturn Mid + " " + Log\n}\n')
+    out.append(("init-order-strings", {"main.tsh": 'import t "two.tsh"\nt.Note("c")\nprint(t.Show())\n', "two.tsh": two}, "a| abc\n"))
+    return out
+
+
 def defined_before_use(script):
     """every function the script invokes is defined in it before its first call (text level)"""
     defined = set()
@@ -410,7 +428,7 @@ def run(res, b, tier, seed):
         if c.out.get("BASH", ("", ""))[0] != "ERR":
             fails.append((c, "negative-accepted", dict(cls=c.out.get("BASH", ("", ""))[0])))
     # alias resolution matrix: rejected exactly when the property says so, accepted programs print the value of the function meant
-    am = [pipeline.Case("a" + name, {k: v.encode() for k, v in files.items()}, meta=dict(src=files["main.tsh"], expect=exp)) for name, files, exp in alias_matrix() + directory_cases() + global_cases() + toplevel_call_families()]
+    am = [pipeline.Case("a" + name, {k: v.encode() for k, v in files.items()}, meta=dict(src=files["main.tsh"], expect=exp)) for name, files, exp in alias_matrix() + directory_cases() + global_cases() + toplevel_call_families() + initialisation_order_cases()]
     pipeline.run_pipe(b, am, "as")
     acc = [c for c in am if c.out.get("BASH", ("", ""))[0] == "OK"]
     runs = common.pmap_proc(semcheck._exec, [(bytes.fromhex(c.out["BASH"][1]), b"") for c in acc])
